@@ -12,7 +12,9 @@
 (*             server compressed into it, else <<>>), recs (raw records    *)
 (*             wanted), myrecs (<<type, length>> of the records this side  *)
 (*             wrote), post (longest post-handshake server sequence, 0:    *)
-(*             none)]                                                      *)
+(*             none), focus (0, or an extension type: only the nodes of    *)
+(*             that extension are mutated - a further server              *)
+(*             configuration for a flight that was already mutated fully)] *)
 (*   docs:    [name, kind (json|map), doc (tagged JSON tree)]              *)
 (*   hellos:  [name, hs (ClientHello bytes)]  -> tlsfingerprint.io maps    *)
 (*   opt:     [classes, inserts, docclasses]  (what this tier enumerates)  *)
@@ -46,7 +48,11 @@ Enabled(cls) == \E j \in DOMAIN Opt.classes : Opt.classes[j] = cls
 NodeMutsAll(b, N) ==
   Flat([j \in DOMAIN N |-> LET ms == SelectSeq(NodeMuts(b, N, N[j]), LAMBDA m : Enabled(m.cls))
                            IN [i \in DOMAIN ms |-> [n |-> j, m |-> ms[i]]]])
+InFocus(b, N, n, t) == \E j \in DOMAIN N : N[j].tk = "ext" /\ RdU16(b, N[j].tp) = t /\ N[j].s <= n.s /\ n.e <= N[j].e
 MutsAt(c, k, N) ==
+  IF Flights[c].focus # 0
+  THEN LET b == Flights[c].msgs[k] IN SelectSeq(NodeMutsAll(b, N), LAMBDA x : InFocus(b, N, N[x.n], Flights[c].focus))
+  ELSE
   LET b == Flights[c].msgs[k]
       per == [j \in DOMAIN N |-> LET ms == SelectSeq(NodeMuts(b, N, N[j]), LAMBDA m : Enabled(m.cls))
                                  IN [i \in DOMAIN ms |-> [n |-> j, m |-> ms[i]]]]
